@@ -4,7 +4,7 @@ import ast
 from . import rule, info
 from ..program import AnalysisError, src, norm, ClassInfo
 from ..tables import COMPARE_DUNDERS
-from ..util import (flows_into, is_name, calls_in, callee_qual, deref, ancestors, evaluator_calls, stmt_of, parent,
+from ..util import (locals_from_attrs, flows_into, is_name, calls_in, callee_qual, deref, ancestors, evaluator_calls, stmt_of, parent,
                     handler_outcomes, completes_normally, handler_covers, in_handler_of, raised_class, is_subclass, cls_name)
 from ..pattern import match, matches
 from .common import option_usage, raise_discipline
@@ -65,10 +65,9 @@ def comparison_table(ctx):
     u = ctx.unit('matching._MExpr.glomit')
     code2op = {}
     lhs = rhs = opv = None
-    for n in u.own_nodes():
-        if isinstance(n, ast.Assign) and isinstance(n.targets[0], ast.Tuple) and isinstance(n.value, ast.Tuple) \
-                and [getattr(e, 'attr', None) for e in n.value.elts] == ['lhs', 'op', 'rhs']:
-            lhs, opv, rhs = [e.id for e in n.targets[0].elts]
+    got = locals_from_attrs(u, ('lhs', 'op', 'rhs'))
+    if len(got) == 3:
+        lhs, opv, rhs = got['lhs'], got['op'], got['rhs']
     ctx.require(lhs is not None, '_MExpr.glomit: `lhs, op, rhs = self.lhs, self.op, self.rhs` not found')
     terms = [n for n in u.own_nodes() if isinstance(n, ast.BoolOp) and isinstance(n.op, ast.And) and len(n.values) == 2
              and isinstance(n.values[0], ast.Compare) and is_name(n.values[0].left, opv)
